@@ -46,7 +46,17 @@ MANIFEST_ENTRY = {
             "and 1e+-30 magnitudes (complex types), masks contain -0.0; all predicates are NaN-aware. (d) constrained reads in the MIDDLE of a "
             "constraint history (configure, read, reconfigure, read), the reset-to-class-defaults assignment of reset_recon, reset() of the object. "
             "(e) alternative entry point ObjectDIP.obj with an identity network. (f) the tomography dictionary (setter / add_hard_constraint, rejected "
-            "keys, python truthiness of the entries modelled in Lean: tomo_nonneg_dict).",
+            "keys, python truthiness of the entries modelled in Lean: tomo_nonneg_dict). "
+            "Growth round 6 (Props/C10Ext.lean, Model/ConstraintsExt2.lean): the three Gram-Schmidt clauses composed end to end "
+            "(gs_intensities_eq_sorted: output intensities = the descending sort of the raw intensities, whatever order -- ascending, unsorted, tied -- "
+            "they come in; gs_intensities_order_independent; gs_orthogonal_every_pair by index; gs_length without hypothesis; probe_read_admissible); "
+            "center_probe is now modelled (centre of mass of the fftshifted intensity, per-mode Fourier shift through the fourierShift model shared with C16) "
+            "with center_keeps_mode_intensity / probe_read_centered_intensities (center_probe on or off, H x W in either role: intensities = descending sort "
+            "of the raw ones) and compared through ProbePixelated.probe incl. the centre-of-mass offsets as an internal stage; single-slice objects need no "
+            "'slice tying off' hypothesis (purephase_amp_eq_one_single_slice, amp_idempotent_single_slice); the object as a state machine whose reads do not "
+            "write (read_has_no_memory, read_after_retype_admissible) with a stream that reads, changes obj_type / a constraint and reads again without an "
+            "optimiser step, next to a second live object. A fixed round-6 block enumerates 3/4/5 modes x ascending/descending/unsorted/tied intensities x "
+            "H>W / H<W x center on/off, every model read twice and again after its raw parameter was replaced.",
     "note": "Trusted: Lean kernel + propext/Classical.choice/Quot.sound; hand model validated by sampled correspondence only; "
             "IEEE rounding, torch abs/angle/exp/fft2/argsort are modelled not verified. Parseval for the model's O(N^2) dft2 is "
             "imported from Lemmas/PtychoOpsForward.lean (PtychoOps.energy_dft2, built by the C16 check). "
@@ -55,7 +65,9 @@ MANIFEST_ENTRY = {
             "falls below the absolute clamp_min(1e-12) do not keep their intensities (both with machine-checked counterexamples "
             "replayed on the real classes); ObjectDIP.forward hands the raw network output (times the mask) to the forward model, the hard "
             "constraints are applied only by ObjectDIP.obj (finding object-dip-forward-unconstrained; ObjectDIP.obj itself is checked like "
-            "ObjectPixelated.obj). Not modelled: center_probe (Fourier-shift recentring), ProbeParametric / ProbeDIP (single-mode / network probes), "
+            "ObjectPixelated.obj). Not modelled: ProbeParametric / ProbeDIP (single-mode / network probes). With center_probe=True every mode is shifted by its OWN "
+            "centre-of-mass offset: the intensity clauses are proved and checked, the mutual orthogonality of the centred modes is NOT claimed (it is lost, "
+            "normalised inner products up to ~0.4 measured; see reports/growth6-C10.md) and only measured. Also not modelled: "
             "the column-shaped weight list [[w1],[w2]] that the length check lets through (the next set_initial_probe raises). In the probe state "
             "machine the random phase ramps are inputs taken from an identically seeded model.",
     "technique": "Lean 4 proof (real-analysis lemmas, induction on the mode index) + model-vs-implementation correspondence",
@@ -64,7 +76,8 @@ RULE = ("one case = one constrained read of a model built from generated raw par
         "(stream, precision, object type / mode count, mask kind, apply_fov_mask, identical_slices, slice-count>1, "
         "baseline/positivity flags, correlation bucket, weights kind) with a non-constant raw array; for the history streams "
         "(op-kind prefix of the constraint history / number of set_initial_probe calls, read-back, reset); probe_ops: (precision, modes, "
-        "first four op kinds); registry: (class, object type, initial model count, first four op kinds), every read of a live model counts as one case")
+        "first four op kinds); registry: (class, object type, initial model count, first four op kinds), every read of a live model counts as one case; probe_hard2: (precision, modes, orthogonalize, center, H>W, H<W, "
+        "intensity order, tie kind, which read); obj_retype: as the object stream, per read")
 TRUSTED = ["torch.abs / angle / exp / clamp / mean / sum / sqrt / fft2(norm='ortho') / argsort(descending) semantics (modelled)",
            "numpy abs / vdot / fft2 as the independent oracle of the predicate"]
 ASSUMPTIONS = [
@@ -80,7 +93,11 @@ ASSUMPTIONS = [
     "rejected calls of the probe history: weight lists of length 0, 1, n-1, n+1, 2n (not n); set_initial_probe with roi_shape (H, W+1) / (W, H) or "
     "mean intensity 0.0 / -0.0 / negative; probe = stacks of shape (n+-1, H, W) / (n, H, W+1); add_constraint with an unknown key. Other invalid "
     "inputs (scalars, strings, nested lists) are not generated",
-    "registry stream: all models of one case are of one class and are read at the end of the history; center_probe stays False; the class defaults "
+    "probe_hard2 stream: centred reads (center_probe=True) are compared at 2e-5 (float64 configuration) because fourier_translation_operator computes "
+    "its phase ramp through float32 stages; tied mode intensities are evaluated by the predicate only (torch.argsort is not stable); the centre-of-mass "
+    "offsets are observed by wrapping probe_models.fourier_shift_expand (skipped with a note if that name is gone)",
+    "obj_retype stream: obj_type is switched between complex and pure_phase only (a potential object has a real raw parameter)",
+    "registry stream: all models of one case are of one class and are read at the end of the history; center_probe stays False there; the class defaults "
     "are the snapshot taken at the start of the run (before any model is built)",
     "Gaussian/Butterworth smoothing off (quantifier); with identical_slices=True only slice identity (and, for complex objects, amplitude <= 1) is evaluated",
     "Gram-Schmidt inputs: pairwise correlation <= 0.99, condition number <= 200, mode intensities pairwise >= 2% apart "
